@@ -609,8 +609,8 @@ int fcntl(int fd, int cmd, ...) {
   va_end(args);
 
   if (!thread_locked) {
-    if (cmd == F_SETFL && (val == O_NONBLOCK || val == O_NDELAY)) {
-      assert(fd < max_fd);
+    if (cmd == F_SETFL && (val == O_NONBLOCK || val == O_NDELAY) && fd >= 0 &&
+        fd < max_fd && (fd_info[fd].flags_ & IO_FLAG_WAITABLE)) {
       atomic_fetch_and(&fd_info[fd].flags_, ~IO_FLAG_BLOCKING);
       assert(!(fd_info[fd].flags_ & IO_FLAG_BLOCKING));
       return 0;
@@ -634,12 +634,12 @@ int ioctl(IOCTLPARAMS) {
   void* val = va_arg(args, void*);
   va_end(args);
 
-  if (!thread_locked && request == FIONBIO) {
+  if (!thread_locked && request == FIONBIO && d >= 0 && d < max_fd &&
+      (fd_info[d].flags_ & IO_FLAG_WAITABLE)) {
     if (!val) {
       errno = EINVAL;
       return -1;
     }
-    assert(d < max_fd);
     if (*(int*)val) {
       atomic_fetch_and(&fd_info[d].flags_, ~IO_FLAG_BLOCKING);
       assert(!(fd_info[d].flags_ & IO_FLAG_BLOCKING));
